@@ -1200,6 +1200,10 @@ func (o *Origin) call(c *ssa.Call) *Term {
 	if !pureCallees[name] && !genGetter {
 		t.Site = o.siteOf(c)
 	}
+	// transparent (value…, error) helpers: project the success returns (helpers.go)
+	if callee != nil && callee != o.fn && !o.NoInline && o.depth < maxInlineDepth && o.p != nil && o.p.errHelper(callee) && callee.Signature.Results().Len() >= 2 {
+		return o.successProjection(c, callee, args, t)
+	}
 	return t
 }
 
